@@ -82,11 +82,16 @@ namespace rkcommon {
           if (!l->threadShouldBeAlive)
             return;
 
+          // Publish insideLoopBody *before* testing shouldBeRunning: stop()
+          // clears shouldBeRunning and then waits for insideLoopBody to be
+          // false, so (both being seq_cst) either we see the cleared flag
+          // here and do not run the body, or stop() sees us inside and waits.
+          l->insideLoopBody = true;
           if (l->shouldBeRunning) {
-            l->insideLoopBody = true;
             fcn();
             l->insideLoopBody = false;
           } else {
+            l->insideLoopBody = false;
             std::unique_lock<std::mutex> lock(l->runningMutex);
             l->runningCond.wait(lock, [&] {
               return l->shouldBeRunning.load() ||
